@@ -1434,14 +1434,16 @@ def i_BSR(i, fmap):
 
 def i_POPCNT(i, fmap):
     logger.warning("%s semantic is not defined" % i.mnemonic)
+    fmap[rip] = fmap[rip] + i.length
     dst, src = i.operands
+    x = fmap(src)
     fmap[dst] = top(dst.size)
     fmap[cf] = bit0
     fmap[of] = bit0
     fmap[sf] = bit0
     fmap[af] = bit0
-    fmap[zf] = fmap(src) == 0
-    fmap[rip] = fmap[rip] + i.length
+    fmap[pf] = bit0
+    fmap[zf] = x == 0
 
 
 def i_LZCNT(i, fmap):
